@@ -497,7 +497,7 @@ func decodeAndCheck(e *core.Env, g *getter, dict pdf.Dict, body, globals []byte,
 			ticks := core.WorkNow() - work0
 			in := int64(len(body) + len(globals))
 			e.Probe("work bound evaluated")
-			e.ProbeN("simulated time spent in decoders (thousands of work ticks)", int(ticks/1000))
+			e.ProbeN("measured: simulated time spent in decoders (thousands of work ticks)", int(ticks/1000))
 			calib(ticks, in, int64(drained), budgetBytes, names, closeAt >= 0, drained > 24<<20)
 			bound := workBound(names[len(names)-1], budgetBytes, in, int64(drained))
 			switch {
